@@ -373,6 +373,27 @@ Proof.
   destruct F as (F1 & _). repeat split. exact F1.
 Qed.
 
+Lemma rpp_exit_did : forall w rc, rp_did (rp_exit summ1 summN w rc) = true.
+Proof. reflexivity. Qed.
+Lemma rpp_finish_did : forall w d e, rp_did (rp_finish w d e) = d.
+Proof. intros w d e. unfold rp_finish. destruct (rp_scan_fsr_sample_id (rp_c w)). reflexivity. Qed.
+Lemma rpp_repair_end_did : forall w, rp_did (rp_repair_end w) = true.
+Proof.
+  intros w. unfold rp_repair_end.
+  repeat first
+    [ rewrite rpp_finish_did | reflexivity
+    | match goal with |- context [let '(_, _) := ?x in _] => destruct x end
+    | match goal with |- rp_did (if ?b then _ else _) = true => destruct b end ].
+Qed.
+Lemma rpp_repair_did : forall c, rp_did (rp_repair summ1 summN c) = true.
+Proof.
+  intros c. unfold rp_repair.
+  repeat first
+    [ rewrite rpp_exit_did | rewrite rpp_finish_did | rewrite rpp_repair_end_did | reflexivity
+    | match goal with |- context [let '(_, _) := ?x in _] => destruct x end
+    | match goal with |- rp_did (if ?b then _ else _) = true => destruct b end ].
+Qed.
+
 (* an open that does not enter the repair branch performs no write and leaves the file as it is *)
 Theorem rpp_open_not_did : forall f, rp_did (rp_open summ1 summN f) = false ->
   rp_events (rp_open summ1 summN f) = [] /\ rp_after (rp_open summ1 summN f) = f.
@@ -383,13 +404,248 @@ Proof.
   - destruct S as (c3 & _ & _ & _ & Hf).
     destruct (fm_tag (wm_ck_hdr (rp_cur (rp_io_ c))) =? JLS_TAG_END).
     + intros _. pose proof (rpp_finish_quiet c) as (A & B & _). split; [exact A | now rewrite B].
-    + intros H. exfalso. revert H. unfold rp_repair.
-      repeat match goal with
-      | |- context [let '(_, _) := ?x in _] => destruct x
-      | |- context [if ?b then _ else _] => destruct b
-      end; cbn; try discriminate.
-      all: unfold rp_exit, rp_finish; repeat match goal with
-      | |- context [let '(_, _) := ?x in _] => destruct x
-      end; cbn; discriminate.
+    + rewrite rpp_repair_did. discriminate.
 Qed.
 End OPEN.
+
+(* ------------------------------------------------------------------ the backward scan on a closed file *)
+Lemma rpp_cands_short : forall fuel i d acc, rp_len d < 32 -> rp_cands fuel i d acc = acc.
+Proof.
+  intros [| fu] i d acc H; cbn [rp_cands]; [reflexivity |].
+  apply rpp_has_false in H. now rewrite H.
+Qed.
+Lemma rpp_cands_last : forall k fuel i d acc,
+  rp_len d = 32 + 8 * N.of_nat k -> (k < fuel)%nat -> fm_ch_crc_ok (rp_skip (8 * N.of_nat k) d) = true ->
+  exists r, rp_cands fuel i d acc = 8 * (i + N.of_nat k) :: r.
+Proof.
+  induction k as [| k IH]; intros fuel i d acc Hl Hf Hc.
+  - destruct fuel as [| fu]; [lia |]. cbn [rp_cands].
+    assert (C : fm_ch_complete d = true) by (apply rpp_has_true; lia). rewrite C.
+    change (8 * N.of_nat 0) with 0 in Hc. cbn [rp_skip] in Hc. rewrite Hc.
+    rewrite rpp_cands_short by (rewrite rpp_len_skip; lia).
+    exists acc. f_equal. lia.
+  - destruct fuel as [| fu]; [lia |]. cbn [rp_cands].
+    assert (C : fm_ch_complete d = true) by (apply rpp_has_true; lia). rewrite C.
+    destruct (IH fu (i + 1) (rp_skip 8 d) (if fm_ch_crc_ok d then 8 * i :: acc else acc)) as [r Hr].
+    + rewrite rpp_len_skip. lia.
+    + lia.
+    + rewrite rpp_skip_skip. replace (8 + 8 * N.of_nat k) with (8 * N.of_nat (S k)) by lia. exact Hc.
+    + exists r. rewrite Hr. f_equal. lia.
+Qed.
+
+Lemma rpp_valid_fields : forall r h, fm_tag h <> JLS_TAG_INVALID -> rp_r_valid (rp_r_set_hdr r h) = true.
+Proof. intros r h H. unfold rp_r_valid. cbn. apply negb_true_iff. now apply N.eqb_neq. Qed.
+Lemma rpp_invalidate_invalid : forall r, rp_r_valid (rp_r_invalidate r) = false.
+Proof. intros r. unfold rp_r_valid, rp_r_invalidate. cbn. reflexivity. Qed.
+
+(* jls_core_rd_chunk on a CRC-valid header with an empty payload *)
+Lemma rpp_rd_chunk_empty : forall s o h,
+  rp_r_valid (rp_r s) = false -> rp_fpos (rp_r s) = o -> rp_offset (rp_r s) = o -> o < rp_fend (rp_r s) ->
+  rp_file_read (rp_file s) (rp_flen s) o SIZEOF_chunk_header = h ->
+  fm_ch_complete h = true -> fm_ch_crc_ok h = true ->
+  fm_payload_length (fm_ch_fields h) = 0 -> fm_tag (fm_ch_fields h) <> JLS_TAG_INVALID ->
+  exists s', rp_rd_chunk s = (s', 0) /\ wm_ck_hdr (rp_cur s') = fm_ch_fields h.
+Proof.
+  intros s o h Hv Hp Ho He Hr Hc Hk Hl Ht.
+  unfold rp_rd_chunk.
+  set (s0 := rp_io_set_cur s _).
+  assert (R0 : rp_r s0 = rp_r s) by reflexivity.
+  unfold rp_raw_rd_header. rewrite R0, Hv.
+  replace (rp_fend (rp_r s) <=? rp_fpos (rp_r s)) with false by (symmetry; apply N.leb_gt; lia).
+  rewrite Ho, Hp, N.eqb_refl.
+  unfold rp_bk_fread. cbn [rp_r rp_io_set_r rp_file rp_flen rp_fpos rp_r_set_offset].
+  change (rp_file s0) with (rp_file s). change (rp_flen s0) with (rp_flen s). rewrite R0, Hp, Hr.
+  rewrite Hc, Hk. cbn [negb].
+  cbv beta iota zeta.
+  set (s3 := rp_io_set_r _ (rp_r_set_hdr _ (fm_ch_fields h))).
+  set (s2 := rp_io_set_cur s3 _).
+  unfold rp_raw_rd_payload.
+  assert (V2 : rp_r_valid (rp_r s2) = true) by (apply rpp_valid_fields; exact Ht).
+  rewrite V2. cbn [negb N.eqb].
+  assert (H2 : rp_hdr (rp_r s2) = fm_ch_fields h) by reflexivity.
+  rewrite H2, Hl. cbn [N.eqb].
+  cbv beta iota zeta. cbn [N.eqb JLS_ERROR_TOO_BIG].
+  eexists. split; [reflexivity |]. reflexivity.
+Qed.
+
+Lemma rpp_chunk_seek_cur : forall s o, rp_cur (fst (rp_chunk_seek s o)) = rp_cur s.
+Proof.
+  intros s o. unfold rp_chunk_seek, rp_bk_fseek. destruct (o =? 0); [reflexivity |].
+  destruct (rp_two63 <=? o); reflexivity.
+Qed.
+Lemma rpp_file_read_eq : forall f n off k, rp_len f = n -> off < n -> rp_file_read f n off k = rp_take k (rp_skip off f).
+Proof. intros f n off k Hn Ho. unfold rp_file_read. replace (n <=? off) with false by (symmetry; apply N.leb_gt; lia). reflexivity. Qed.
+
+(* jls_core_rd_chunk_end finds the END chunk in the last 32 bytes at once *)
+Lemma rpp_rd_chunk_end_closed : forall s f,
+  rp_file s = f -> rp_flen s = rp_len f -> rp_fend (rp_r s) = rp_len f ->
+  64 <= rp_len f -> rp_len f < rp_two63 -> rp_len f mod 8 = 0 ->
+  fm_ch_crc_ok (rp_skip (rp_len f - 32) f) = true ->
+  fm_tag (fm_ch_fields (rp_skip (rp_len f - 32) f)) = JLS_TAG_END ->
+  fm_payload_length (fm_ch_fields (rp_skip (rp_len f - 32) f)) = 0 ->
+  exists s', rp_rd_chunk_end s = (s', 0) /\ fm_tag (wm_ck_hdr (rp_cur s')) = JLS_TAG_END.
+Proof.
+  intros s f Hf Hn He H64 H63 H8 Hc Ht Hl.
+  set (n := rp_len f) in *. set (h := rp_skip (n - 32) f) in *.
+  assert (Hh : rp_len h = 32) by (unfold h; rewrite rpp_len_skip; fold n; lia).
+  unfold rp_rd_chunk_end. rewrite He.
+  replace (n / 8 * 8) with n by lia.
+  cbn [rp_end_loop].
+  replace ((0 <? n) && (SIZEOF_chunk_header <? n)) with true
+    by (symmetry; apply andb_true_iff; split; apply N.ltb_lt; unfold SIZEOF_chunk_header; lia).
+  set (pos := n - RpEnd_window). set (len1 := n - pos).
+  assert (Hpos : pos + len1 = n) by (unfold len1, pos, RpEnd_window; lia).
+  assert (Hlen1 : 64 <= len1 /\ len1 mod 8 = 0 /\ len1 <= 1024) by (unfold len1, pos, RpEnd_window; lia).
+  unfold rp_bk_fseek at 1. unfold rp_two63 in H63.
+  replace (rp_two63 <=? pos) with false by (symmetry; apply N.leb_gt; unfold rp_two63; lia).
+  unfold rp_bk_fread at 1.
+  cbn [rp_r rp_io_set_r rp_file rp_flen rp_fpos rp_r_set_fpos].
+  rewrite Hf, Hn. fold n.
+  rewrite (rpp_file_read_eq f n pos len1) by (auto; lia).
+  set (d := rp_take len1 (rp_skip pos f)).
+  assert (Hd : rp_len d = len1) by (unfold d; rewrite rpp_len_take, rpp_len_skip; fold n; lia).
+  rewrite Hd.
+  replace (len1 <? len1) with false by (symmetry; apply N.ltb_ge; lia).
+  replace (len1 <? SIZEOF_chunk_header) with false by (symmetry; apply N.ltb_ge; unfold SIZEOF_chunk_header; lia).
+  (* the candidates *)
+  set (k := N.to_nat ((len1 - 40) / 8)).
+  assert (Hk : 8 * N.of_nat k = len1 - 40) by (unfold k; lia).
+  destruct (rpp_cands_last k (N.to_nat (len1 / 8)) 1 (rp_skip 8 d) []) as [r Hr].
+  { rewrite rpp_len_skip, Hd. lia. }
+  { unfold k. lia. }
+  { rewrite rpp_skip_skip. replace (8 + 8 * N.of_nat k) with (len1 - 32) by lia.
+    unfold d. rewrite rpp_skip_take, rpp_skip_skip.
+    replace (len1 - (len1 - 32)) with 32 by lia. replace (pos + (len1 - 32)) with (n - 32) by lia.
+    fold h. rewrite rpp_take_all by lia. exact Hc. }
+  rewrite Hr. replace (8 * (1 + N.of_nat k)) with (len1 - 32) by lia.
+  cbn [rp_try_cands].
+  replace (pos + (len1 - 32)) with (n - 32) by lia.
+  set (s2 := rp_io_set_r _ _).
+  unfold rp_chunk_seek at 1.
+  replace (n - 32 =? 0) with false by (symmetry; apply N.eqb_neq; lia).
+  unfold rp_bk_fseek at 1.
+  replace (rp_two63 <=? n - 32) with false by (symmetry; apply N.leb_gt; unfold rp_two63; lia).
+  cbn [negb N.eqb].
+  set (s3 := rp_io_set_r _ _).
+  destruct (rpp_rd_chunk_empty s3 (n - 32) h) as (s4 & E4 & H4).
+  - unfold s3. cbn [rp_r rp_io_set_r]. unfold rp_r_valid. reflexivity.
+  - reflexivity.
+  - reflexivity.
+  - unfold s3, s2. cbn. rewrite He. fold n. lia.
+  - unfold s3, s2. cbn [rp_file rp_flen rp_io_set_r]. rewrite Hf, Hn. fold n.
+    rewrite rpp_file_read_eq by (auto; lia). fold h. apply rpp_take_all. unfold SIZEOF_chunk_header. lia.
+  - apply rpp_has_true. lia.
+  - exact Hc.
+  - exact Hl.
+  - rewrite Ht. discriminate.
+  - rewrite E4. cbn [N.eqb]. eexists. split; [reflexivity |].
+    rewrite rpp_chunk_seek_cur, H4. exact Ht.
+Qed.
+
+(* ------------------------------------------------------------------ C19 part 1 for closed files *)
+Section CLOSED.
+Variable summ1 : N -> list N -> wm_sentry.
+Variable summN : bool -> list wm_sentry -> wm_sentry.
+
+(* a file whose last 32 bytes are a CRC-valid END chunk header (8-aligned): whatever the rest of the file holds,
+   the open does not enter the repair branch, emits no backend event and leaves the file as it is *)
+Theorem rpp_closed_quiet : forall f,
+  64 <= rp_len f -> rp_len f < rp_two63 -> rp_len f mod 8 = 0 ->
+  fm_ch_crc_ok (rp_skip (rp_len f - 32) f) = true ->
+  fm_tag (fm_ch_fields (rp_skip (rp_len f - 32) f)) = JLS_TAG_END ->
+  fm_payload_length (fm_ch_fields (rp_skip (rp_len f - 32) f)) = 0 ->
+  rp_did (rp_open summ1 summN f) = false /\ rp_events (rp_open summ1 summN f) = [] /\ rp_after (rp_open summ1 summN f) = f.
+Proof.
+  intros f H64 H63 H8 Hc Ht Hl.
+  assert (D : rp_did (rp_open summ1 summN f) = false).
+  { unfold rp_open. pose proof (rpp_scan_cases f) as S.
+    destruct (rp_scan f) as [[c rc] | c]; [reflexivity |].
+    destruct S as (c3 & _ & (I1 & I2 & I3) & E & _).
+    destruct I3 as [I3 | I3].
+    - destruct (rpp_rd_chunk_end_closed (rp_io_ c3) f I1 I2 I3 H64 H63 H8 Hc Ht Hl) as (s' & E' & T').
+      rewrite E in E'. inversion E'; subst s'. rewrite T', N.eqb_refl.
+      pose proof (rpp_finish_quiet c) as (_ & _ & Dd). exact Dd.
+    - (* fend = 0: the scan finds nothing and jls_rd_open fails *)
+      exfalso. unfold rp_rd_chunk_end in E. rewrite I3 in E. cbn in E. discriminate. }
+  split; [exact D |]. apply rpp_open_not_did. exact D.
+Qed.
+
+Corollary rpp_ends_with_end_quiet : forall f, rp_ends_with_end f = true ->
+  rp_did (rp_open summ1 summN f) = false /\ rp_events (rp_open summ1 summN f) = [] /\ rp_after (rp_open summ1 summN f) = f.
+Proof.
+  intros f H. unfold rp_ends_with_end in H. cbv zeta in H.
+  repeat (apply andb_true_iff in H; destruct H as [H ?]).
+  apply rpp_closed_quiet.
+  - now apply N.leb_le.
+  - now apply N.ltb_lt.
+  - now apply N.eqb_eq.
+  - assumption.
+  - now apply N.eqb_eq.
+  - now apply N.eqb_eq.
+Qed.
+End CLOSED.
+
+(* ------------------------------------------------------------------ coherence: file = original file + events *)
+Lemma rpp_len_repeat : forall x n, rp_len (repeat x n) = N.of_nat n.
+Proof. intros. unfold rp_len. now rewrite repeat_length. Qed.
+Lemma rpp_apply_write_len : forall f off b, snd (rp_apply_write f (rp_len f) off b) = rp_len (fst (rp_apply_write f (rp_len f) off b)).
+Proof.
+  intros f off b. unfold rp_apply_write. cbv zeta.
+  destruct (rp_len f <=? off) eqn:E; cbn [fst snd].
+  - apply N.leb_le in E. rewrite !rpp_len_app, rpp_len_repeat. lia.
+  - apply N.leb_gt in E. rewrite !rpp_len_app, rpp_len_take, rpp_len_skip. lia.
+Qed.
+Lemma rpp_apply_len : forall fl e, snd fl = rp_len (fst fl) -> snd (rp_apply fl e) = rp_len (fst (rp_apply fl e)).
+Proof.
+  intros [f n] e H. cbn [fst snd] in H. subst n. destruct e as [off b | len |]; cbn [rp_apply fst snd].
+  - apply rpp_apply_write_len.
+  - destruct (len <? rp_len f) eqn:E; cbn [fst snd].
+    + apply N.ltb_lt in E. rewrite rpp_len_take. lia.
+    + apply N.ltb_ge in E. rewrite rpp_len_app, rpp_len_repeat. lia.
+  - reflexivity.
+Qed.
+Lemma rpp_apply_log_len : forall l fl, snd fl = rp_len (fst fl) -> snd (rp_apply_log fl l) = rp_len (fst (rp_apply_log fl l)).
+Proof.
+  induction l as [| e l IH]; intros fl H; [exact H |]. cbn [rp_apply_log fold_right]. apply rpp_apply_len. apply IH. exact H.
+Qed.
+Lemma rpp_apply_log_app : forall l1 l2 fl, rp_apply_log fl (l1 ++ l2) = rp_apply_log (rp_apply_log fl l2) l1.
+Proof. intros l1 l2 fl. unfold rp_apply_log. apply fold_right_app. Qed.
+
+Definition rpp_coh (f0 : list N) (w : rp_w) : Prop :=
+  rp_flen (rp_w_io w) = rp_len (rp_file (rp_w_io w)) /\
+  (rp_file (rp_w_io w), rp_flen (rp_w_io w)) = rp_apply_log (f0, rp_len f0) (rp_log w).
+Definition rpp_wpres (w w' : rp_w) : Prop := forall f0, rpp_coh f0 w -> rpp_coh f0 w'.
+Lemma rpp_wpres_refl : forall w, rpp_wpres w w.
+Proof. intros w f0 H; exact H. Qed.
+Lemma rpp_wpres_trans : forall a b c, rpp_wpres a b -> rpp_wpres b c -> rpp_wpres a c.
+Proof. intros a b c H1 H2 f0 H. apply H2, H1, H. Qed.
+(* anything that keeps file, length and log *)
+Lemma rpp_wpres_same : forall w w', rp_file (rp_w_io w') = rp_file (rp_w_io w) -> rp_flen (rp_w_io w') = rp_flen (rp_w_io w) ->
+  rp_log w' = rp_log w -> rpp_wpres w w'.
+Proof. intros w w' A B C f0 (H1 & H2). unfold rpp_coh. rewrite A, B, C. split; assumption. Qed.
+Lemma rpp_wpres_io : forall w s', rpp_frame (rp_w_io w) s' -> rpp_wpres w (rp_w_set_io w s').
+Proof. intros w s' (A & B & _). apply rpp_wpres_same; [exact A | exact B | reflexivity]. Qed.
+Lemma rpp_wpres_c : forall w c, rpp_frame (rp_w_io w) (rp_io_ c) -> rpp_wpres w (rp_w_set_c w c).
+Proof. intros w c (A & B & _). apply rpp_wpres_same; [exact A | exact B | reflexivity]. Qed.
+Lemma rpp_wpres_fault : forall w code, rpp_wpres w (rp_w_fault w code).
+Proof. intros. apply rpp_wpres_same; reflexivity. Qed.
+Lemma rpp_wpres_uninit : forall w, rpp_wpres w (rp_w_set_uninit w).
+Proof. intros. apply rpp_wpres_same; reflexivity. Qed.
+Lemma rpp_wpres_commit : forall w b, rpp_wpres w (rp_commit w b).
+Proof.
+  intros w b f0 (H1 & H2). unfold rp_commit.
+  destruct (rp_apply_log (rp_file (rp_w_io w), rp_flen (rp_w_io w)) (wm_rlog (wm_b_raw b))) as [f1 n1] eqn:E.
+  unfold rpp_coh. cbn [rp_w_io rp_c rp_io_ rp_file rp_flen rp_log].
+  split.
+  - pose proof (rpp_apply_log_len (wm_rlog (wm_b_raw b)) (rp_file (rp_w_io w), rp_flen (rp_w_io w)) H1) as L.
+    rewrite E in L. exact L.
+  - rewrite rpp_apply_log_app, <- H2, E. reflexivity.
+Qed.
+Lemma rpp_wpres_with_raw : forall w k, rpp_wpres w (rp_with_raw w k).
+Proof. intros. apply rpp_wpres_commit. Qed.
+Lemma rpp_wpres_truncate : forall w, rpp_wpres w (rp_bk_truncate w).
+Proof. intros. apply rpp_wpres_with_raw. Qed.
+Lemma rpp_wpres_update_chunk_header : forall w ch, rpp_wpres w (rp_update_chunk_header w ch).
+Proof. intros w ch. unfold rp_update_chunk_header. destruct (wm_ck_offset ch =? 0); [apply rpp_wpres_refl | apply rpp_wpres_with_raw]. Qed.
+#[global] Hint Resolve rpp_wpres_refl rpp_wpres_commit rpp_wpres_with_raw rpp_wpres_truncate rpp_wpres_update_chunk_header
+  rpp_wpres_fault rpp_wpres_uninit : rpp.
